@@ -243,9 +243,21 @@ class EvolveAppTask(BaseEvolutionTask):
                         task_sql = task_info.get('sql')
 
                         if task_sql:
-                            task.execute(sql_executor=sql_executor,
-                                         sql=task_sql,
-                                         **kwargs)
+                            # Only announce the evolutions that are part of
+                            # this batch, not every pending evolution of the
+                            # task.
+                            batch_labels = set(
+                                task_info.get('evolutions', []))
+
+                            task.execute(
+                                sql_executor=sql_executor,
+                                sql=task_sql,
+                                evolutions=[
+                                    evolution
+                                    for evolution in task.new_evolutions
+                                    if evolution.label in batch_labels
+                                ],
+                                **kwargs)
             elif batch_type == UpgradeMethod.MIGRATIONS:
                 assert migrating
 
